@@ -9,7 +9,7 @@ RULE = ('Engine A: same FULL/DEV spaces as C01 (every subset of the six constrai
         'bounds). Oracle recomputes from raw data: sizes and geo ratio in exact rational arithmetic, volume ratio, '
         'share under either documented reading, budget = closed-form required impact / iroas. Completeness '
         'THRESH: budget / share / volume bounds placed between every two consecutive critical values of the panel '
-        '(all subset optimistic impacts and design impacts, also / iroas, rho_max 0.9); the same for share / volume on a share-DRIFT panel with n_pretest_max = T/2 (bounds between the all-dates and the windowed critical values). Completeness sub-check (inclusiveness of bounds): with no budget range and n_designs >= |feasible set| the exhaustive '
+        '(all subset optimistic impacts and design impacts, also / iroas, rho_max 0.9); the same for share / volume on a share-DRIFT panel with n_pretest_max = T/2 (bounds between the all-dates and the windowed critical values). REUSE: share / volume thresholds and DEV(4,1) on a data object that already served another matched-markets object admitting a different geo set. Completeness sub-check (inclusiveness of bounds): with no budget range and n_designs >= |feasible set| the exhaustive '
         'result must contain every reference-feasible design. Non-trivial = a constraint is specified and at least '
         'one legal design of the reference space violates it; distinct = distinct case.')
 ASSUMPTIONS = ['values: fixed integer panels; continuous bounds judged with 1e-9 relative slack, integer bounds exactly',
@@ -25,6 +25,13 @@ def cases(tier, seed):
     # documented reading (all supplied dates) AND of the windowed reading, so the two can be told apart
     out += spaces.threshold_space({'name': 'D', 'G': 4, 'T': 12}, base_kw={'n_designs': 100, 'n_pretest_max': 6},
                                   parts=('share', 'volume'))
+    # REUSE: the share / volume thresholds again on a data object that ALREADY served another matched-markets object which
+    # admitted a different geo set (positional geo indices mean something else there) and evaluated shares under its index
+    pB4 = {'name': 'B', 'G': 4, 'T': 12}
+    for c in spaces.threshold_space(pB4, base_kw={'n_designs': 100}, parts=('share', 'volume')):
+        for pr in (spaces.PRIORS[2], spaces.PRIORS[0], {'kw': {'n_geos_max': 3, 'volume_ratio_tolerance': 4.0, 'n_designs': 2}, 'op': 'exhaustive_search'}):
+            out.append(dict(c, prior=pr, deviations=c['deviations'] + 1))
+    out += spaces.reuse_space(pB4, ['volume_ratio_tolerance', 'treatment_share_range', 'n_geos_max', 'budget_range'], {'n_designs': 100}, d=1)
     if tier == 'thorough':
         out += spaces.threshold_space({'name': 'D', 'G': 5, 'T': 14}, base_kw={'n_designs': 100, 'n_pretest_max': 7},
                                       parts=('share', 'volume'))
